@@ -9,6 +9,7 @@ META = {
         "(2) in every command that reports a step position, each resume of the debuggee is followed on all normal paths by a re-anchor before the step hook is executed (the place reported is the place of the real pc); "
         "(3) step interruptions are reported: every match on StepResult/AsyncStepResult routes a non-quiet signal interrupt to the signal hook and a non-quiet watchpoint interrupt to the watchpoint hook, and quiet results are produced only after continue_execution (which already reported); "
         "(4) shape clauses: stepi performs exactly one instruction step outside any loop; finish's temporary breakpoint is placed at the unwound return address of the focused thread; next's temporary breakpoints belong to the focused thread and are placed only on statement rows."
+        " Also: next/finish accept a temporary-breakpoint stop only after comparing the frame (CFA, strictness per step kind) with the starting one; the exclusion of epilogue places from next's temporary breakpoints is tied to the epilogue's line."
     ),
     "not_decided": "landing positions of next/step/finish for real programs (needs execution and line tables)",
     "assumptions": ["closures passed to calls are executed at that call"],
